@@ -4,6 +4,7 @@ import (
 	"fmt"
 	"go/token"
 	"go/types"
+	"os"
 	"sort"
 	"strings"
 
@@ -525,6 +526,65 @@ func ruleInvokeSites(c *chk.Ctx, d *dispatchModel) {
 			if ha != nil && reachesWithout(a, a, ha) {
 				excl = false
 			}
+		}
+		// the task that is run on the dispatching goroutine itself is the last one to be
+		// started: once a handler has been invoked synchronously no goroutine for another
+		// task of the batch is started any more — unless the synchronous invocation is chosen
+		// by a count or index test (it is then the last by that count), not by a flag
+		if loopFn := taskLoopFunc(c, d); loopFn != nil {
+			var syncBlocks, goBlocks []*ssa.BasicBlock
+			for _, s := range d.invokeSites {
+				var up func(at ssa.Instruction, depth int)
+				up = func(at ssa.Instruction, depth int) {
+					if at.Parent() == loopFn {
+						if _, isGo := at.(*ssa.Go); isGo {
+							goBlocks = append(goBlocks, at.Block())
+						} else {
+							syncBlocks = append(syncBlocks, at.Block())
+						}
+						return
+					}
+					if depth > 5 {
+						return
+					}
+					for _, cs := range c.P.Callers(at.Parent()) {
+						up(cs.Instr, depth+1)
+					}
+				}
+				up(s, 0)
+			}
+			late := ""
+			if os.Getenv("JRPCVET_DEBUG") != "" {
+				fmt.Fprintf(os.Stderr, "GO.nowait last-started: loopFn=%s sync=%d go=%d\n", ir.Name(loopFn), len(syncBlocks), len(goBlocks))
+			}
+			for _, a := range syncBlocks {
+				for _, b := range goBlocks {
+					if a != b && !reachesWithout(a, b, nil) {
+						continue
+					}
+					counted := false
+					common := map[ir.Cond]bool{}
+					for _, cd := range ir.NormConds(ir.CondsAt(b)) {
+						common[ir.Cond{V: cd.V, Truth: cd.Truth}] = true
+					}
+					for _, cd := range ir.NormConds(ir.CondsAt(a)) {
+						if common[ir.Cond{V: cd.V, Truth: cd.Truth}] {
+							continue // (the loop's own bound, the err == nil test: shared with the go site)
+						}
+						if x, y, _, isRel := ir.Rel(cd); isRel {
+							bx, okx := x.Type().Underlying().(*types.Basic)
+							by, oky := y.Type().Underlying().(*types.Basic)
+							if okx && oky && bx.Info()&types.IsInteger != 0 && by.Info()&types.IsInteger != 0 {
+								counted = true
+							}
+						}
+					}
+					if !counted {
+						late = c.P.Pos(a.Instrs[0].Pos())
+					}
+				}
+			}
+			c.Check(late == "", "GO.nowait", d.closure, "the task run in place is the last to be started", d.closure.Pos(), "no goroutine for another task is started after a handler was invoked synchronously (or the synchronous one is picked by a count)", "after the synchronous handler invocation at "+late+" the loop goes on to start other tasks of the batch: they are not started until that handler has returned, although slots are free — and a notification among them keeps the barrier raised for the whole duration")
 		}
 		c.Check(excl, "PAIR.invoke", d.closure, "at most one invocation per task", siteBlocks[0].Instrs[0].Pos(), fmt.Sprintf("the %d places from which a handler invocation is reached are mutually exclusive within one iteration of the task loop", len(siteBlocks)),
 			"two handler invocations can be reached for the same task in one iteration")
